@@ -56,7 +56,11 @@ fn level_of(id: &str) -> &'static str {
 
 fn parts(id: &'static str, tier: Tier, seed: u64) -> Vec<Part> {
     match id {
-        "C01" | "C02" => vec![seq_part(id, tier, seed)],
+        "C01" => vec![seq_part(id, tier, seed)],
+        "C02" => vec![
+            seq_part(id, tier, seed),
+            Part { rule: props_misc::C02_LARGE_RULE.to_string(), run: Box::new(|ctx, acc| props_misc::run_c02_large(ctx, acc)) },
+        ],
         "C18" => vec![
             seq_part(id, tier, seed),
             Part { rule: props_misc::C18_EXH_RULE.to_string(), run: Box::new(|ctx, acc| props_misc::run_c18_exhaustive(ctx, acc)) },
@@ -184,6 +188,7 @@ fn replay_case(id: &'static str, engine: &str, case: serde_json::Value) -> R<Cas
         "C18X" => props_misc::replay_c18x(case),
         "C19I" => props_misc::replay_c19i(case),
         "C19P" => props_misc::replay_c19p(case),
+        "C02L" => props_misc::replay_c02l(case),
         "XDEV" => props_e2::replay_xdev(case),
         "C17" => props_misc::replay_c17(case),
         "C19" => props_misc::replay_c19(case),
